@@ -59,9 +59,10 @@ def _add_pes(spec, fanout, loop_bounds=None, min_usage=0):
 @st.composite
 def cases(draw, slot):
     kind = slot["kind"]
-    metrics = draw(st.sampled_from(METRICS))
+    metrics = slot["metrics"]
     if kind in ("max_fused_loops", "per_rank_fused"):
-        spec = draw(MM.small_specs(shapes=("chain2", "chain2", "elementwise2"), three_level_single=False))
+        spec = draw(MM.small_specs(shapes=("chain2", "chain2", "elementwise2"), three_level_single=False,
+                                   tight=draw(st.sampled_from(["very", "very", True])), dear_main=draw(st.sampled_from(["glb_good", "glb_good", None]))))
         main, glb = _node(spec, "Main"), _node(spec, "GLB")
         if main["keep"] == "All":           # make fusion possible
             main["keep"] = "~Intermediates"
@@ -77,13 +78,17 @@ def cases(draw, slot):
     elif kind in ("loop_bounds", "min_usage", "imperfect_spatial"):
         pool = ODD_POOL if kind == "imperfect_spatial" else None
         spec = draw(MM.small_specs(shapes=("matmul", "matmul", "matvec", "elementwise2", "chain2"),
-                                   three_level_single=False, bound_pool=pool))
+                                   three_level_single=False, bound_pool=pool,
+                                   dear_main=draw(st.sampled_from(["compute_bound", "compute_bound", None]))))
         rvs = sorted(spec["bounds"])
         fanout = draw(st.sampled_from([2, 3, 4, 4]))
         if kind == "loop_bounds":
-            n = draw(st.integers(1, 2))
-            lbs = [{"expression": draw(st.sampled_from(rvs + ["All"])), "operator": draw(st.sampled_from(["<=", "<=", "=="])),
-                    "value": draw(st.sampled_from([1, 1, 2]))} for _ in range(n)]
+            n = draw(st.integers(1, 2)) if len(rvs) >= 2 else 1
+            # distinct rank variables per entry (two entries on one loop only make accelforge warn about conflicts)
+            exprs = draw(st.lists(st.sampled_from(rvs), min_size=n, max_size=n, unique=True)) if n == 2 else \
+                [draw(st.sampled_from(rvs + ["All"]))]
+            lbs = [{"expression": e, "operator": draw(st.sampled_from(["<=", "<=", "=="])),
+                    "value": draw(st.sampled_from([1, 1, 2]))} for e in exprs]
             _add_pes(spec, fanout, lbs)
             relax = {"kind": kind, "index": draw(st.integers(0, n - 1))}
         elif kind == "min_usage":
@@ -97,21 +102,18 @@ def cases(draw, slot):
             _add_pes(spec, fanout)
             relax = {"kind": kind, "knob": "explore_imperfect_spatial_loops", "to": True}
     elif kind == "imperfect_temporal":
-        spec = draw(MM.small_specs(shapes=("matmul", "matvec", "matvec", "elementwise2"), bound_pool=ODD_POOL,
-                                   three_level_single=False))
+        spec = draw(MM.small_specs(shapes=("matmul", "matvec", "matvec", "elementwise2"), bound_pool=[3, 5, 5, 7, 7],
+                                   three_level_single=False, tight="very", dear_main=draw(st.sampled_from(["glb_good", "glb_good", None]))))
         relax = {"kind": kind, "knob": "explore_imperfect_temporal_loops", "to": True}
     else:
-        spec = draw(MM.small_specs())
+        spec = draw(MM.small_specs(tight=("very" if kind == "size" else False),
+                                   dear_main=draw(st.sampled_from(["glb_good", "glb_good", None]))))
         bits = _bits(spec)
         sizes = G.tensor_sizes(spec)
         tot, big = sum(sizes.values()), max(sizes.values())
         glb = _node(spec, "GLB")
         if kind == "size":
             target = draw(st.sampled_from([n["name"] for n in spec["nodes"] if n["type"] == "Memory" and n["name"] != "Main"]))
-            node = _node(spec, target)
-            if node["size"] == "inf":
-                vals = draw(st.sampled_from(sorted({2, 3, max(1, big // 2), big, max(2, tot // 2)})))
-                node["size"] = vals * bits + _half(bits)
             relax = {"kind": kind, "node": target, "to": draw(st.sampled_from(["x2", "x2", "inf"]))}
         elif kind == "may_keep":
             main = _node(spec, "Main")
@@ -197,7 +199,8 @@ N = {"quick": 45, "thorough": 450}
 
 def shards(tier, seed):
     # deterministic, even spread of the relaxation kinds
-    return MM.deal([{"kind": KINDS[(i + seed) % len(KINDS)]} for i in range(N[tier])], tier, seed)
+    nk = len(KINDS)
+    return MM.deal([{"kind": KINDS[(i + seed) % nk], "metrics": METRICS[(i // nk + i % nk) % 3]} for i in range(N[tier])], tier, seed)
 
 
 def run_shard(shard, col):
